@@ -405,6 +405,8 @@ FRAGMENT_PROBES = [
     ("Nima.C18.cex_block_comment_after_opener", "C18", "{ /* c */ a = 1; }"),
     ("Nima.C18.cex_comment_after_open_paren", "C18", "[\n  ( /* c */ x)\n]"),
     ("Nima.C18.cex_comment_touching_function", "C18", "{\n  a = f/* c */ x;\n}"),
+    ("Nima.C18.cex_blank_lines_around_operator", "C18", "a\n\n\n  + b\n"),
+    ("Nima.C18.cex_blank_lines_after_colon", "C18", "x:\n\n\n  y\n"),
     ("Nima.C06.cex_comment_around_semicolon", "C06", "{ a = 1 # c\n; # d\n}"),
 ]
 
